@@ -251,7 +251,11 @@ func main() {
 	only := flag.String("only", "", "substring filter on scenario names (debugging)")
 	list := flag.Bool("list", false, "list scenarios")
 	part := flag.String("part", "mc", "")
+	selftest := flag.Bool("selftest", false, "run the controlled runtime's own unit tests")
 	flag.Parse()
+	if *selftest {
+		os.Exit(runSelfTests())
+	}
 	mc.MemOn = true
 	if *replay != "" {
 		os.Exit(doReplay(*replay))
